@@ -144,7 +144,9 @@ class Gen:
                 sh = r.choice(["nilhash", "shorthash", "longhash", "prehash", "prehash2", "niladdr", "shortaddr", "longaddr"])
                 o = self.obs(d, m, shape=sh)
                 # malformed hash: recovery fails; malformed address: claimed address is not the signer's
-                if "hash" in sh:
+                if sh.startswith("prehash"):
+                    pass  # a genuine observation with bytes in front of the digest: modelled as "recovery fails" by Trace_Processor
+                elif "hash" in sh:
                     o["a"]["o"]["signer"] = "ERR"
                     o["a"]["o"]["d"] = "dX"
                     o["a"]["o"]["over"] = "dX"
@@ -378,7 +380,9 @@ class Gen:
                 if r.random() < 0.2:
                     sh = r.choice(["nilhash", "shorthash", "longhash", "prehash", "prehash2", "niladdr", "shortaddr", "longaddr"])
                     o["shape"] = sh
-                    if "hash" in sh:
+                    if sh.startswith("prehash"):
+                        pass
+                    elif "hash" in sh:
                         o["signer"], o["d"], o["over"] = "ERR", "dX", "dX"
                     else:
                         o["claimed"] = "JUNKADDR"
@@ -470,7 +474,9 @@ class Gen:
             else:
                 sh = r.choice(["nilhash", "shorthash", "longhash", "prehash", "prehash2", "niladdr", "shortaddr", "longaddr"])
                 o = self.obs(d, k, shape=sh)
-                if "hash" in sh:
+                if sh.startswith("prehash"):
+                    pass
+                elif "hash" in sh:
                     o["a"]["o"].update(signer="ERR", d="dX", over="dX")
                 else:
                     o["a"]["o"]["claimed"] = "JUNKADDR"
@@ -705,7 +711,8 @@ def attribute(rej, line):
     invalid_obs = False
     if ev == "Observation":
         o = line["a"]["o"]
-        invalid_obs = o["signer"] in ("ERR", "JUNK") or o["signer"] != o["claimed"] or o["over"] != o["d"]
+        invalid_obs = (o["signer"] in ("ERR", "JUNK") or o["signer"] != o["claimed"] or o["over"] != o["d"]
+                       or str(o.get("shape", "")).startswith("prehash"))
         # C03: a message changes state only if validly signed by a member of the *applicable* set, so the recorded
         # signers / the set of entries differing from what the membership rules dictate speaks to C03 as well
         if invalid_obs or comps & {"agg-sigs", "agg-keys", "agg-snap"}:
